@@ -716,6 +716,8 @@ class Program:
 
     def body_for_callee(self, c, frm):
         """the local Body a call resolves to (same target first, then the lib), or None"""
+        if c is None:
+            return None
         for p in (c.get("resolved"), c["decl"]):
             if not p:
                 continue
